@@ -241,7 +241,7 @@ def st_spec(max_leaves=12, keys=None, scalars=None, with_sets=True,
     def extend(children):
         maps = st.lists(st.tuples(st.sampled_from(keys), children),
                         min_size=1, max_size=4,
-                        unique_by=lambda kv: repr(kv[0])).map(
+                        unique_by=lambda kv: str(kv[0])).map(
             lambda kvs: ["M", [[k, v] for k, v in kvs], None])
         seqs = st.lists(children, min_size=1, max_size=4).map(
             lambda xs: ["L", xs, None])
@@ -259,7 +259,7 @@ def st_spec(max_leaves=12, keys=None, scalars=None, with_sets=True,
         if with_sets:
             opts.append(st.lists(st.sampled_from(["a", "b", "c", 1, "1"]),
                                  min_size=1, max_size=3,
-                                 unique_by=repr).map(
+                                 unique_by=str).map(
                 lambda ms: ["T", ms, None]))
         return st.one_of(*opts)
 
